@@ -4,6 +4,7 @@ from __future__ import annotations
 import ast
 import bisect
 import collections
+import contextlib
 import enum
 import functools
 import heapq
@@ -88,6 +89,13 @@ def boolean_context_atoms(func):
 #       to its raw value; the literal that N9 put in place of `K.MEMBER` is mapped back to the member), `@dataclasses.dataclass` classes get the generated __init__
 #       (fields in declaration order, defaults / default_factory, __post_init__, frozen); plus a whitelist of pure helpers of functools / operator / itertools / bisect / heapq / math.
 # No function of the repository is ever called. Anything outside this fragment raises CannotEval -> `chk.unknown` (shape not recognised), never a verdict.
+#
+# PROCESS STATE (`session`): by default every evaluation stands on its own - memoising decorators are transparent, module-level / class-level values and default arguments are
+# built afresh whenever they are read. Evaluators that share a `session` dict model ONE PROCESS instead: a function under functools.lru_cache / functools.cache (resolved
+# through the import table) returns THE OBJECT it returned before for equal arguments, module-level values, class-level values and the defaults of module-level functions /
+# methods are created once and live on (writes through them - `_CACHE[k] = v`, `global` names - are performed). In both modes the result of a generator function is a
+# single-use iterator (evaluated eagerly, handed out once) and a functools.cached_property is computed once per instance. A sequence of lookups evaluated in one session
+# therefore shows whether a later lookup depends on the earlier ones.
 
 
 class _Opaque:
@@ -187,6 +195,8 @@ _BIN = {ast.Add: operator.add, ast.Sub: operator.sub, ast.Mult: operator.mul, as
         ast.BitOr: operator.or_, ast.BitAnd: operator.and_, ast.BitXor: operator.xor}
 _OK_DECORATORS = {"property", "staticmethod", "classmethod", "functools.lru_cache", "functools.cache", "lru_cache", "cache", "functools.cached_property", "cached_property",
                   "functools.total_ordering", "total_ordering"}
+_MEMOISERS = {"functools.lru_cache", "functools.cache"}
+_GLOBALS = "<names declared global>"  # (not an identifier: cannot collide with a local)
 _SCOPES = (ast.FunctionDef, ast.AsyncFunctionDef, ast.Lambda, ast.ClassDef)
 _OK_CLASS_DECORATORS = {"functools.total_ordering", "enum.unique", "dataclasses.dataclass"}
 _INERT_BASES = {"abc.ABC", "typing.Generic", "typing.Protocol"}  # bases that add no member an evaluated expression could reach
@@ -229,8 +239,11 @@ def _own_nodes(func):
 
 
 class Interp:
-    def __init__(self, mod, stubs=None, budget=60000, hierarchy=None, modules=None):
+    nesting = 0  # calls of analysed functions in progress, over all collaborating evaluators (0: the call about to be made is made by the rule itself)
+
+    def __init__(self, mod, stubs=None, budget=60000, hierarchy=None, modules=None, session=None):
         self.mod = mod
+        self.session = session  # None: every evaluation stands on its own; a dict (shared by collaborating evaluators): the state of ONE process
         self.stubs = dict(stubs or {})
         self.modules = dict(modules or {})  # qualified module name -> the evaluator of that collaborating module
         self.hierarchy = dict(hierarchy or {})  # exception classes of a collaborating module (name -> ClassDef): only their base chains are read
@@ -253,6 +266,42 @@ class Interp:
         self.budget -= 1
         if self.budget < 0:
             raise CannotEval("step budget exhausted")
+
+    def once(self, key, thunk):
+        """process state: the value is created by the first read and lives on (session mode); without a session it is built afresh at every read."""
+        if self.session is None:
+            return thunk()
+        if key not in self.session:
+            self.session[key] = thunk()
+        return self.session[key]
+
+    def memo_key(self, func, args, kwargs, bound):
+        """the cache key of a call of a function under functools.lru_cache / functools.cache (None: the function is not memoised, or no process state is modelled)."""
+        if self.session is None or not any(self.qualified(d.func if isinstance(d, ast.Call) else d) in _MEMOISERS for d in func.decorator_list):
+            return None
+
+        def k(v):
+            if isinstance(v, _Obj):
+                if self.member(v.cls, "__eq__") is not None or self.member(v.cls, "__hash__") is not None:
+                    raise CannotEval(f"{func.name}: memoised on an object with its own __eq__ / __hash__")
+                return ("object", id(v))
+            if isinstance(v, _Cls):
+                return ("class", id(v.node))
+            if isinstance(v, type):
+                return ("type", id(v))
+            if not _plain(v) or callable(v):
+                raise CannotEval(f"{func.name}: memoised on a value that is not modelled")
+            try:
+                hash(v)
+            except TypeError:
+                if Interp.nesting == 0:
+                    # the call is made by the RULE (a list of branch names handed in directly), not by the analysed program: whether the program's callers pass something
+                    # hashable is decided where THEY are evaluated
+                    return ("handed in by the rule", repr(v))
+                raise _Raised(f"TypeError: unhashable type: {type(v).__name__!r} (argument of the memoised {func.name})", "TypeError")
+            return ("value", v)
+
+        return ("memo", id(func), None if bound is _MISSING else k(bound), tuple(k(a) for a in args), tuple((n, k(v)) for n, v in kwargs.items()))
 
     def qualified(self, node, env=None):
         """dotted name of an expression with its head resolved through the module's import table (`NamedTuple` -> `typing.NamedTuple`, `t.NamedTuple` after `import typing as t`
@@ -510,7 +559,10 @@ class Interp:
         if bad:
             raise CannotEval(f"{m.name}: decorator {bad[0]}")
         if any(d.split(".")[-1] in ("property", "cached_property") for d in decs):
-            return self.call_function(m, [], {}, bound=recv)
+            v = self.call_function(m, [], {}, bound=recv)
+            if isinstance(recv, _Obj) and any(d.split(".")[-1] == "cached_property" for d in decs):
+                recv.fields[m.name] = v  # computed once per instance: later reads get this very object
+            return v
         if "staticmethod" in decs:
             return self.closure(m)
         if "classmethod" in decs:
@@ -615,14 +667,16 @@ class Interp:
             if n in kw:
                 env[n] = kw.pop(n)
             elif i >= first_default:
-                env[n] = self.ev(a.defaults[i - first_default], dict(outer or {}))
+                d = a.defaults[i - first_default]
+                # (the default of a module-level function / a method is evaluated once, at definition time; a nested function is defined anew by every run of its `def`)
+                env[n] = self.ev(d, dict(outer or {})) if outer else self.once(("default", id(d)), lambda d=d: self.ev(d, {}))
             else:
                 raise _Raised(f"TypeError: {func.name}() missing required argument {n!r}")
         for x, d in zip(a.kwonlyargs, a.kw_defaults):
             if x.arg in kw:
                 env[x.arg] = kw.pop(x.arg)
             elif d is not None:
-                env[x.arg] = self.ev(d, dict(outer or {}))
+                env[x.arg] = self.ev(d, dict(outer or {})) if outer else self.once(("default", id(d)), lambda d=d: self.ev(d, {}))
             else:
                 raise _Raised(f"TypeError: {func.name}() missing keyword-only argument {x.arg!r}")
         if kw:
@@ -640,7 +694,11 @@ class Interp:
         bad = [d for d in decorator_names(func) if d not in _OK_DECORATORS]
         if bad and not undecorated:
             raise CannotEval(f"{func.name}: decorator {bad[0]}")
+        memo = self.memo_key(func, args, kwargs, bound)
+        if memo is not None and memo in self.session:
+            return self.session[memo][0]
         self.depth += 1
+        Interp.nesting += 1
         try:
             if self.depth > 14:
                 raise CannotEval(f"{func.name}: call depth")
@@ -659,13 +717,16 @@ class Interp:
                         raise CannotEval(f"the generator {func.name} is evaluated eagerly and raises ({r.text[:60]}): whether its consumer gets that far is not modelled")
                     raise
                 if gen:
-                    rv = list(self.yields[-1])
+                    rv = iter(list(self.yields[-1]))  # a generator object: single use (evaluated eagerly - the analysed helpers are pure, laziness is not observable)
             finally:
                 if gen:
                     self.yields.pop()
+            if memo is not None:
+                self.session[memo] = (rv, bound, list(args), dict(kwargs))  # (the arguments are kept alive: their identity is part of the key)
             return rv
         finally:
             self.depth -= 1
+            Interp.nesting -= 1
 
     def closure(self, func, bound=_MISSING, outer=None, undecorated=False):
         def f(*a, **k):
@@ -732,7 +793,7 @@ class Interp:
             if isinstance(m, ast.FunctionDef):
                 return self.bound_member(m, recv, _Cls(recv.cls, recv.owner))
             if isinstance(m, ast.Assign):
-                return self.ev(m.value, {})
+                return self.once(("class-level", id(m)), lambda: self.ev(m.value, {}))
             raise CannotEval(f"attribute {attr} of a {recv.cls.name} object")
         if isinstance(recv, _Cls):
             m = self.member(recv.node, attr)
@@ -742,7 +803,7 @@ class Interp:
                     return self.closure(m, bound=recv)
                 return self.closure(m)
             if isinstance(m, ast.Assign):
-                return self.ev(m.value, {})
+                return self.once(("class-level", id(m)), lambda: self.ev(m.value, {}))
             raise CannotEval(f"attribute {attr} of class {recv.node.name}")
         if isinstance(recv, minieval.Record):
             if attr in recv.fields:
@@ -904,6 +965,8 @@ class Interp:
         if isinstance(e, ast.Constant):
             return e.value
         if isinstance(e, ast.Name):
+            if self.session is not None and e.id not in env and ("module-level", self.mod.relpath, e.id) in self.session and e.id not in self.stubs:
+                return self.session[("module-level", self.mod.relpath, e.id)]
             if e.id in env:
                 v = env[e.id]
                 if isinstance(v, _Opaque):
@@ -925,7 +988,7 @@ class Interp:
                     raise CannotEval(f"recursive constant {e.id}")
                 self._const_busy.add(e.id)
                 try:
-                    return self.ev(self.consts[e.id], {})
+                    return self.once(("module-level", self.mod.relpath, e.id), lambda: self.ev(self.consts[e.id], {}))
                 finally:
                     self._const_busy.discard(e.id)
             if e.id in _BUILTINS:
@@ -1072,7 +1135,10 @@ class Interp:
     # -- statements ---------------------------------------------------------------------------------------------------------------------------------
     def assign(self, t, v, env):
         if isinstance(t, ast.Name):
-            env[t.id] = v
+            if self.session is not None and t.id in env.get(_GLOBALS, ()) and not isinstance(v, _Opaque):
+                self.session[("module-level", self.mod.relpath, t.id)] = v  # `global x; x = v`: process state
+            else:
+                env[t.id] = v
         elif isinstance(t, (ast.Tuple, ast.List)):
             if isinstance(v, _Opaque):
                 for x in t.elts:
@@ -1189,8 +1255,9 @@ class Interp:
                 if isinstance(s, ast.AnnAssign) and s.value is None:
                     continue
                 targets = s.targets if isinstance(s, ast.Assign) else [s.target]
-                if all(isinstance(t, (ast.Attribute, ast.Subscript)) and self.root_name(t) not in env for t in targets):
-                    continue  # module-level state (a statistics counter): not part of the evaluated value flow
+                if all(isinstance(t, (ast.Attribute, ast.Subscript)) and self.root_name(t) not in env for t in targets) \
+                        and not (self.session is not None and any(self.root_name(t) in self.consts for t in targets)):
+                    continue  # module-level state (a statistics counter): not part of the evaluated value flow (it is when ONE process is modelled: `_CACHE[k] = v`)
                 try:
                     v = self.ev(s.value, env)
                 except CannotEval:
@@ -1200,7 +1267,7 @@ class Interp:
                 for t in targets:
                     self.assign(t, v, env)
             elif isinstance(s, ast.AugAssign):
-                if self.root_name(s.target) not in env:
+                if self.root_name(s.target) not in env and not (self.session is not None and isinstance(s.target, ast.Name) and s.target.id in env.get(_GLOBALS, ())):
                     if isinstance(s.target, ast.Name):
                         raise CannotEval(f"augmented assignment to unbound {s.target.id}")
                     continue
@@ -1259,8 +1326,12 @@ class Interp:
                 raise _Break()
             elif isinstance(s, ast.Continue):
                 raise _Continue()
-            elif isinstance(s, (ast.Pass, ast.Import, ast.ImportFrom, ast.Global, ast.Nonlocal)):
-                continue  # (a name declared global is written like a local here: module state is not part of the evaluated value flow)
+            elif isinstance(s, ast.Global):
+                if self.session is not None:
+                    env[_GLOBALS] = tuple(env.get(_GLOBALS, ())) + tuple(s.names)
+                continue  # (without a session a name declared global is written like a local: module state is not part of the evaluated value flow)
+            elif isinstance(s, (ast.Pass, ast.Import, ast.ImportFrom, ast.Nonlocal)):
+                continue
             elif isinstance(s, ast.Assert):
                 if not self.truth(self.ev(s.test, env)):
                     raise _Raised(f"AssertionError: {short(s.test, 80)}")
@@ -1368,18 +1439,38 @@ def run(chk):
         "result, the head revision held afterwards is the one after the last ref-changing call, checkout errors propagate, the remote listing follows a fetch. The git command "
         "lines are evaluated with recording subprocess stubs: the directory is interpolated escaped, fetch prunes and fetches tags, clone is not narrowed. Where a shape cannot "
         "be evaluated the structural form of the same obligations (CFG / guard facts in update() and its helper methods, literal words of the command) decides or reports "
-        "`not recognised`. Remote ref names lose only their remote prefix (on values)."
+        "`not recognised`. Remote ref names lose only their remote prefix (on values). History independence (O15.5): sequences of lookups (variants helper, matcher, tag search with a "
+        "new repository object per step, update() of a new repository object per step) are evaluated in ONE modelled process - functions under functools.lru_cache / cache return the "
+        "object they cached, generator results are single-use iterators, module-level / class-level values and default arguments are created once and written through - and every "
+        "step must yield the documented answer (the one it yields on its own)."
     )
     chk.not_decided = "git behaviour, contents of the repositories."
 
     ref = Ref()
     iv = Interp(ver, stubs={"components": ref.components, "is_version_identifier": ref.is_version_identifier})
 
+    PROCESS = [None]  # the process state shared by the evaluators of versions.py and repo.py while a SEQUENCE of lookups is evaluated (O15.5); None: every evaluation on its own
+
+    def process():
+        """the process state an evaluation runs in: the one of the sequence being evaluated, else a NEW one (every table case is a process of its own: a memoising helper, a
+        module-level dict of results behave as they do in a process that makes this one lookup)."""
+        iv.session = PROCESS[0] if PROCESS[0] is not None else {}
+        return iv.session
+
     def fresh():
         iv.budget = 60000
         iv.depth = 0
         iv.yields = []
         del ref.calls[:]
+        process()
+
+    @contextlib.contextmanager
+    def one_process():
+        PROCESS[0] = {}
+        try:
+            yield
+        finally:
+            PROCESS[0] = None
 
     # ---- O15.1 precedence order -------------------------------------------------------------------------------------------------------
     chk.rule("O15.1", "variants are built most-specific first (suffix, patch, minor, major) with formats M.m.p-s / M.m.p / M.m / M; in the matcher the exact test precedes the "
@@ -1617,7 +1708,7 @@ def run(chk):
 
     # decided on VALUES: the module's own is_version_identifier(name, strict=False) is evaluated WITHOUT stubs (its pattern is run by Python's regex engine, applied the way the module
     # applies it - match / fullmatch, anchored or not, one constant or two); only when that cannot be evaluated the literal is located in the text
-    real = Interp(ver)
+    real = Interp(ver, session={})
     ivi, comp = ver.func("is_version_identifier"), ver.func("components")
 
     def identified(name):
@@ -2077,7 +2168,7 @@ def run(chk):
                  "join": lambda *a: "/".join(a)}
         # (what update() and its helpers read from versions.py beyond the stubbed matcher - VersionVariants(...).all_versions in an inlined tag search, a renamed
         # variants helper - is evaluated from versions.py by that module's evaluator)
-        ir = Interp(rep, stubs=stubs, hierarchy=hierarchy, modules={ver.modname: iv})
+        ir = Interp(rep, stubs=stubs, hierarchy=hierarchy, modules={ver.modname: iv}, session=process())
         me, built = None, False
         init = rep.methods(RR).get("__init__")
         if init is not None and len(params_of(init)) == 7:
@@ -2312,6 +2403,7 @@ def run(chk):
 
     def helper_values(vo, version):
         iv.budget = 60000
+        process()
         return list(iv.iterate(iv.call_function(vo, [version]), vo.name))
 
     TAG_CASES = [
@@ -2335,7 +2427,7 @@ def run(chk):
         tag_of, tag_node = tag_via_update, up
     else:
         def find_tag(tags, version):
-            ir = Interp(rep, stubs={"tags": lambda *a, **k: list(tags)}, modules={ver.modname: iv})
+            ir = Interp(rep, stubs={"tags": lambda *a, **k: list(tags)}, modules={ver.modname: iv}, session=process())
             me = _Obj(RR)
             me.fields.update({"repo_dir": "/repo-dir", "resource_name": "tracks", "remote": True, "offline": False, "logger": OPAQUE})
             return ir.call_function(ft, [version], bound=me)
@@ -2366,6 +2458,80 @@ def run(chk):
         chk.ob("O15.4", f"tag search tries v + all_versions in order: {v_}", ok, tag_node,
                f"all_versions: {want_!r}; selected from the tags of variants i.. : {[r[1] if r[0] == 'value' else 'raises ' + str(r[1])[:40] for r in picks]!r}",
                key=f"{_P}:RallyRepository:tag-candidates-follow-all_versions:{v_}")
+    # ---- O15.5 a lookup is a function of its inputs ----------------------------------------------------------------------------------------------------
+    # "for every set of branches and every version": what is selected depends on the branches / tags and the version, not on what this process looked up before (teams and
+    # tracks repository of one race, several updates of one repository). Decided on values: each SEQUENCE of lookups below is evaluated in ONE modelled process (memoised
+    # functions hand out the object they cached, generator results are single-use, module-level / class-level values and default arguments live on) and every step must yield
+    # the documented answer - the one the same lookup yields on its own.
+    chk.rule("O15.5", "a lookup is a function of its inputs only: evaluated as a SEQUENCE in one process (memoised functions return the object they cached, the result of a generator "
+             "function is a single-use iterator, module-level / class-level values and default arguments are created once and live on), every lookup - variants helper, matcher, "
+             "tag search, update() of a new repository object - yields the documented answer whatever was looked up before", 13,
+             "the second repository of a race (teams, then tracks) or the second update for the same ES version tries no v-tag candidate / sees what an earlier lookup left behind: "
+             "`Cannot find ... for distribution version` although the documented ref exists, or the ref of another lookup is checked out")
+
+    def sequence(group, steps, node, evaluate, slug):
+        """steps: (label, inputs, documented outcome); all evaluated in order in ONE process. A step that cannot be evaluated makes the sequence `not recognised`."""
+        outcomes = []
+        with one_process():
+            for label, inputs, _want in steps:
+                outcomes.append(attempt(lambda: evaluate(*inputs)))
+                if outcomes[-1][0] == "unknown":
+                    break
+        if outcomes[-1][0] == "unknown":
+            chk.unknown("O15.5", f"{group}: step {len(outcomes)} ({steps[len(outcomes) - 1][0]}) cannot be evaluated ({outcomes[-1][1]})", node)
+            return
+        seen = {}
+        for i, ((label, inputs, want), (kind, got)) in enumerate(zip(steps, outcomes), 1):
+            ok = kind == "value" and got == want and type(got) is type(want)
+            detail = f"code: {got!r}" + ("" if kind == "value" else " (raised)") + f"; documented: {want!r}"
+            if not ok:
+                with one_process():
+                    k0, g0 = attempt(lambda: evaluate(*inputs))
+                detail += f"; the same lookup on its own: {g0!r}" + ("" if k0 == "value" else f" ({'raised' if k0 == 'raise' else 'not evaluated'})")
+                if (k0, g0) != (kind, got):
+                    detail += " — the outcome depends on the lookups made before it in the same process: " + "; ".join(f"{j}. {st[0]}" for j, st in enumerate(steps[: i - 1], 1))
+            n_before = seen.get(label, 0)
+            seen[label] = n_before + 1
+            chk.ob("O15.5", f"{group}: step {i}, {label}" + (f" (again, after {i - 1} other lookup(s))" if n_before else ""), ok, node, detail, key=f"{slug}:history-independent:{i}")
+
+    for vo in helpers:
+        wants = {v_: attempt(lambda: variant_values(v_)) for v_ in ("8.5.1", "7.10.2-SNAPSHOT")}
+        if any(k_ != "value" for k_, _g in wants.values()):
+            chk.unknown("O15.5", f"all_versions cannot be evaluated ({[g for k_, g in wants.values() if k_ != 'value'][0]}): the values of {vo.name} in a sequence are not compared with it", vo)
+            continue
+        sequence(f"{vo.name} consumed anew by every lookup", [(f"{vo.name}({v_!r})", (vo, v_), wants[v_][1]) for v_ in ("8.5.1", "8.5.1", "7.10.2-SNAPSHOT", "8.5.1")],
+                 vo, helper_values, f"{_V}:{vo.name}")
+    sequence("matcher", [
+        ("['8.3', '8', 'master'] for 8.5.1", (["8.3", "8", "master"], "8.5.1"), "8.3"),
+        ("['8.3', '8', 'master'] for 8.5.1", (["8.3", "8", "master"], "8.5.1"), "8.3"),
+        ("['8', 'master'] for 8.5.1 (the same version, another repository)", (["8", "master"], "8.5.1"), "8"),
+        ("['7.0', '6', 'master'] for 7.3.1", (["7.0", "6", "master"], "7.3.1"), "7.0"),
+        ("['7', 'master'] for 8.5.1", (["7", "master"], "8.5.1"), "master"),
+        ("['7.4', '7'] for 7.3.1 (the same version, another repository)", (["7.4", "7"], "7.3.1"), "7"),
+        ("['8.3', '8', 'master'] for 8.5.1", (["8.3", "8", "master"], "8.5.1"), "8.3"),
+    ], bm, match, f"{_V}:best_match")
+    sequence("tag search (a new repository object per lookup)", [
+        ("tags ['v8.5', 'v8', 'v7'] for 8.5.1", (["v8.5", "v8", "v7"], "8.5.1"), "v8.5"),
+        ("tags ['v8.5', 'v8', 'v7'] for 8.5.1", (["v8.5", "v8", "v7"], "8.5.1"), "v8.5"),
+        ("tags ['v7.10', 'v8'] for 7.10.2", (["v7.10", "v8"], "7.10.2"), "v7.10"),
+        ("tags ['v8', 'v9.0'] for 8.5.1 (the same version, another repository)", (["v8", "v9.0"], "8.5.1"), "v8"),
+        ("no tags for 8.5.1", ([], "8.5.1"), None),
+        ("tags ['v8.5', 'v8', 'v7'] for 8.5.1", (["v8.5", "v8", "v7"], "8.5.1"), "v8.5"),
+    ], tag_node, tag_of, f"{_P}:RallyRepository:tag-search")
+    if not not_evaluated:
+        # update() itself, one new repository object per step (teams, then tracks; a second race in the same process): what is checked out and how update() ends
+        def updated(scen):
+            r = simulate(**SCEN[scen][1])
+            if r["kind"] == "unknown":
+                raise CannotEval(str(r["val"]))
+            return [r["kind"] == "value"] + list(r["refs"])
+
+        def alone(scen):
+            return [runs[scen]["kind"] == "value"] + list(runs[scen]["refs"])
+
+        sequence(f"update({VERSION!r}) of a new repository object -> [returns normally, refs checked out / rebased]",
+                 [(SCEN[k][0], (k,), alone(k)) for k in ("tag", "tag", "remote-hit", "local-only", "nothing", "tag-2", "remote-hit", "local-only")], up, updated, f"{_P}:RallyRepository.update")
+
     # remote ref -> branch name: only the remote prefix (first path component) is stripped; decided on values
     crb = git.func("_cleanup_remote_branch_names")
 
@@ -2402,6 +2568,10 @@ _LB_HELPER = ('    eligible_minors = [m for m in (_eligible_minor(a, target_vers
               'def _eligible_minor(alternative, target_version):\n    if not is_version_identifier(alternative, strict=False):\n        return None\n'
               '    major, minor, patch, suffix = components(alternative, strict=False)\n    if patch is not None or suffix is not None or minor is None:\n        return None\n'
               '    return minor if major == target_version.major and minor <= target_version.minor else None\n')
+_LB_DEFAULT = ('    return max(_eligible_minors(alternatives, target_version), default=None)\n\n\ndef _eligible_minors(alternatives, target_version, found=[]):\n'
+               '    for a in alternatives:\n        if is_version_identifier(a, strict=False):\n            major, minor, patch, suffix = components(a, strict=False)\n'
+               '            if patch is None and suffix is None and minor is not None and major == target_version.major and minor <= target_version.minor:\n'
+               '                found.append(minor)\n    return found\n')
 _AV_OLD = ('        versions = [(self.with_suffix, "with_suffix")] if self.suffix else []\n        versions.extend(\n            [\n                (self.with_patch, "with_patch"),\n'
            '                (self.with_minor, "with_minor"),\n                (self.with_major, "with_major"),\n            ]\n        )\n')
 _CRB_OLD = ('    branches = []\n    for ref in refs:\n        # git >= 2.40.0 reports an `origin` ref without a slash while previous versions\n        # reported a `origin/HEAD` ref.\n'
@@ -2710,6 +2880,47 @@ VARIANTS = [
     V("pattern choice inverted (branch names parsed strictly, versions leniently)", "break", _V, "    return VERSIONS if strict else VERSIONS_OPTIONAL\n", "    return VERSIONS_OPTIONAL if strict else VERSIONS\n", "O15.3"),
     V("components() from matches.groups()", "keep", _V, _COMP_OLD, _COMP_GROUPS),
     V("components() from groups(): a '.0' minor becomes None (`int(minor) or None`)", "break", _V, _COMP_OLD, _COMP_GROUPS.replace("(int(minor) if minor", "(int(minor) or None if minor"), "O15.3"),
+    # ---- O15.5: a lookup does not depend on the lookups made before it in the same process (memoised single-use values, module / class level state, default arguments)
+    V("seed m13: variants_of (a generator function) under functools.lru_cache: the cached generator is exhausted by the first lookup of a version", "break", _V,
+      "def variants_of(version):\n", "@functools.lru_cache(maxsize=128)\ndef variants_of(version):\n", "O15.5"),
+    V("variants_of hands out a generator expression kept in a module-level dict per version", "break", _V, _VO_DEF,
+      "_VARIANTS = {}\n\n\ndef variants_of(version):\n    if version not in _VARIANTS:\n        _VARIANTS[version] = (v for v, _ in VersionVariants(version).all_versions)\n"
+      "    return _VARIANTS[version]\n\n\n", "O15.5"),
+    [V("memoised VersionVariants factory + all_versions as a cached_property holding a lazy zip: the variants of a version can be walked once per process", "break", _V,
+       "        versions = VersionVariants(distribution_version)\n", "        versions = _variants(distribution_version)\n", "O15.5"),
+     V("", "break", _V, "    @property\n    def all_versions(self):", "    @functools.cached_property\n    def all_versions(self):"),
+     V("", "break", _V, "        return versions\n\n\ndef best_match", "        return zip([v for v, _ in versions], [k for _, k in versions])\n\n\n@functools.lru_cache(maxsize=None)\n"
+       "def _variants(version):\n    return VersionVariants(version)\n\n\ndef best_match")],
+    V("extracted search helper collects the eligible minors in a mutable default argument (they accumulate over the lookups of a process)", "break", _V, _LB_OLD, _LB_DEFAULT, "O15.5"),
+    V("extracted search helper with a None default replaced by a new list per call", "keep", _V, _LB_OLD,
+      _LB_DEFAULT.replace("found=[]):\n", "found=None):\n    found = [] if found is None else found\n")),
+    [V("tag search result kept in a class-level dict keyed by the version only (teams and tracks repository share it)", "break", _P, _FT_OLD,
+       '        if distribution_version not in self._known_tags:\n            tags = git.tags(self.repo_dir)\n'
+       '            self._known_tags[distribution_version] = next((f"v{v}" for v in versions.variants_of(distribution_version) if f"v{v}" in tags), None)\n'
+       '        return self._known_tags[distribution_version]\n', "O15.5"),
+     V("", "break", _P, '    Manages Rally resources (e.g. teams or tracks).\n    """\n', '    Manages Rally resources (e.g. teams or tracks).\n    """\n\n    _known_tags = {}\n')],
+    [V("update() skipped for a version this process has updated before (class-level set shared by every repository object)", "break", _P,
+       "    def update(self, distribution_version):\n        try:\n",
+       "    def update(self, distribution_version):\n        if distribution_version in self._updated:\n            return\n        self._updated.add(distribution_version)\n        try:\n", "O15.5"),
+     V("", "break", _P, '    Manages Rally resources (e.g. teams or tracks).\n    """\n', '    Manages Rally resources (e.g. teams or tracks).\n    """\n\n    _updated = set()\n')],
+    V("variants_of memoised but returning a tuple (re-iterable, immutable)", "keep", _V, _VO_DEF,
+      "@functools.lru_cache(maxsize=128)\ndef variants_of(version):\n    return tuple(v for v, _ in VersionVariants(version).all_versions)\n\n\n"),
+    V("variants_of returns a fresh generator expression per call (not memoised)", "keep", _V, _VO_OLD, "    return (v for v, _ in VersionVariants(version).all_versions)\n"),
+    V("variants_of keeps a LIST per version in a module-level dict", "keep", _V, _VO_DEF,
+      "_VARIANTS = {}\n\n\ndef variants_of(version):\n    if version not in _VARIANTS:\n        _VARIANTS[version] = [v for v, _ in VersionVariants(version).all_versions]\n"
+      "    return _VARIANTS[version]\n\n\n"),
+    [V("memoised VersionVariants factory + all_versions as a cached_property holding the list", "keep", _V,
+       "        versions = VersionVariants(distribution_version)\n", "        versions = _variants(distribution_version)\n"),
+     V("", "keep", _V, "    @property\n    def all_versions(self):", "    @functools.cached_property\n    def all_versions(self):"),
+     V("", "keep", _V, "        return versions\n\n\ndef best_match", "        return versions\n\n\n@functools.lru_cache(maxsize=None)\ndef _variants(version):\n    return VersionVariants(version)\n\n\ndef best_match")],
+    [V("bounded-minor search memoised, its caller hands it a tuple of the branches (the rule hands its own lists in directly: not a verdict on the callers)", "keep", _V,
+       "latest_bounded_minor(available_alternatives, versions)", "latest_bounded_minor(tuple(available_alternatives), versions)"),
+     V("", "keep", _V, "def latest_bounded_minor(alternatives, target_version):", "@functools.lru_cache(maxsize=64)\ndef latest_bounded_minor(alternatives, target_version):")],
+    V("_latest_major memoised although the matcher hands it the branch LIST (TypeError: unhashable on every master decision)", "break", _V,
+      "def _latest_major(alternatives):", "@functools.lru_cache(maxsize=64)\ndef _latest_major(alternatives):", "O15.3"),
+    [V("tag search result kept per repository OBJECT and version (instance attribute set in the tag search)", "keep", _P, _FT_OLD,
+       '        tags = git.tags(self.repo_dir)\n        self.last_tag = next((f"v{v}" for v in versions.variants_of(distribution_version) if f"v{v}" in tags), None)\n'
+       '        return self.last_tag\n')],
     # preserving
     V("strictly smaller minors only", "keep", _V, "minor is not None and minor <= target_version.minor:", "minor is not None and minor < target_version.minor:"),
     V("nearest = max", "keep", _V, "    return min(eligible_minors, key=lambda x: abs(x - target_version.minor))", "    return max(eligible_minors)"),
